@@ -19,9 +19,11 @@ import (
 	"fmt"
 	"math/rand"
 	"os"
+	"runtime"
 	"runtime/debug"
 	"sort"
 	"strconv"
+	"strings"
 	"sync/atomic"
 	"testing"
 	"time"
@@ -47,12 +49,12 @@ type lsNode struct {
 type jLE [4]uint64 // index, term, val, size
 
 type jUp struct {
-	N    int    `json:"n"`
-	Ents []jLE  `json:"ents"`
-	HasS bool   `json:"hass"`
+	N    int       `json:"n"`
+	Ents []jLE     `json:"ents"`
+	HasS bool      `json:"hass"`
 	St   [3]uint64 `json:"st"`
-	Ss   uint64 `json:"ss"`
-	SsT  uint64 `json:"sst"`
+	Ss   uint64    `json:"ss"`
+	SsT  uint64    `json:"sst"`
 }
 
 type jIt struct {
@@ -90,14 +92,34 @@ type jLsEv struct {
 }
 
 type crashInjector struct {
-	n      int64
-	at     int64 // crash in front of this operation (0 = never)
-	errAt  int64 // return an error at this operation (0 = never)
-	mem    *vfs.MemFS
-	fired  int32
+	n         int64
+	at        int64 // crash in front of this operation (0 = never)
+	errAt     int64 // return an error at this operation (0 = never)
+	onceAt    int64 // one transient write / sync failure at or after this operation (0 = never)
+	noSyncErr bool  // regular Tan fsyncs in goroutines of its own and stops the process on failure (allowed, not observable here)
+	mem       *vfs.MemFS
+	fired     int32
 }
 
 var errInjected = errors.New("injected I/O error")
+
+// onSaveGoroutine: the failure is injected into the goroutine that runs the save only (background
+// goroutines of the store, e.g. Tan's removal of obsolete files, stop the process on an error -
+// allowed by the property, but not observable by this driver)
+func onSaveGoroutine() bool {
+	pcs := make([]uintptr, 48)
+	n := runtime.Callers(2, pcs)
+	frames := runtime.CallersFrames(pcs[:n])
+	for {
+		f, more := frames.Next()
+		if strings.Contains(f.Function, "lsSim).saveFsError") {
+			return true
+		}
+		if !more {
+			return false
+		}
+	}
+}
 
 func (c *crashInjector) MaybeError(op vfs.Op) error {
 	n := atomic.AddInt64(&c.n, 1)
@@ -109,22 +131,28 @@ func (c *crashInjector) MaybeError(op vfs.Op) error {
 		atomic.StoreInt32(&c.fired, 1)
 		return errInjected
 	}
+	// one transient failure: the first write or sync from operation onceAt on fails, nothing else
+	if at := atomic.LoadInt64(&c.onceAt); at != 0 && n >= at && (op == vfs.OpWrite || (op == vfs.OpSync && !c.noSyncErr)) && onSaveGoroutine() {
+		atomic.StoreInt64(&c.onceAt, 0)
+		atomic.StoreInt32(&c.fired, 1)
+		return errInjected
+	}
 	return nil
 }
 
 type lsSim struct {
-	rng     *rand.Rand
-	out     *bufio.Writer
-	tid     int
-	step    int
-	flavour string
-	mem     *vfs.MemFS
-	inj     *crashInjector
-	fs      vfs.FS
-	db      raftio.ILogDB
-	nodes   []*lsNode
-	nextVal uint64
-	counts  map[string]int
+	rng       *rand.Rand
+	out       *bufio.Writer
+	tid       int
+	step      int
+	flavour   string
+	mem       *vfs.MemFS
+	inj       *crashInjector
+	fs        vfs.FS
+	db        raftio.ILogDB
+	nodes     []*lsNode
+	nextVal   uint64
+	counts    map[string]int
 	crashMode bool
 	big       bool
 	wide      bool // now and then one save carries thousands of entries for several replicas
@@ -161,6 +189,31 @@ func (s *lsSim) open() {
 		panic(err)
 	}
 	s.db = db
+}
+
+// flushAll syncs every file and directory under dir (the operating system writing back its cache)
+func (s *lsSim) flushAll(dir string) {
+	names, err := s.mem.List(dir)
+	if err != nil {
+		return
+	}
+	for _, n := range names {
+		p := s.mem.PathJoin(dir, n)
+		st, err := s.mem.Stat(p)
+		if err != nil {
+			continue
+		}
+		if st.IsDir() {
+			s.flushAll(p)
+		} else if f, err := s.mem.Open(p); err == nil {
+			_ = f.Sync()
+			_ = f.Close()
+		}
+	}
+	if d, err := s.mem.OpenDir(dir); err == nil {
+		_ = d.Sync()
+		_ = d.Close()
+	}
 }
 
 // lsTree prints the files under dir (debug aid, VERIF_DEBUG=ls)
@@ -473,6 +526,89 @@ func (s *lsSim) save(crashAt int64) {
 	}
 }
 
+// saveFsError: one save of one replica during which a single write or fsync of the file system
+// fails (no power loss). The save must report the failure (error or panic) or be completely
+// there: success with data missing is the violation. After a reported failure the store is
+// reopened and the driver continues from what it holds, like raft would after a restart.
+func (s *lsSim) saveFsError() {
+	k := s.rng.Intn(len(s.nodes))
+	saved := *s.nodes[k]
+	nt := map[uint64]uint64{}
+	for a, b := range s.nodes[k].terms {
+		nt[a] = b
+	}
+	saved.terms = nt
+	ud, ju := s.genUpdate(k)
+	at := int64(1 + s.rng.Intn(30))
+	atomic.StoreInt64(&s.inj.n, 0)
+	atomic.StoreInt32(&s.inj.fired, 0)
+	s.inj.noSyncErr = s.flavour == "tan"
+	atomic.StoreInt64(&s.inj.onceAt, at)
+	res := "ok"
+	func() {
+		defer func() {
+			if r := recover(); r != nil {
+				res = "panic"
+				time.Sleep(30 * time.Millisecond)
+			}
+		}()
+		if err := s.db.SaveRaftState([]pb.Update{ud}, s.nodes[k].Shard%2+1); err != nil {
+			res = "error"
+		}
+	}()
+	hit := atomic.LoadInt32(&s.inj.fired) == 1
+	atomic.StoreInt64(&s.inj.onceAt, 0)
+	atomic.StoreInt32(&s.inj.fired, 0)
+	if res == "ok" {
+		ev := jLsEv{Op: "Save", Ups: []jUp{ju}, Res: res, Panels: s.panels([]int{k})}
+		if hit {
+			ev.Op, ev.At = "SaveWithInjectedError", at
+		}
+		s.emit(ev)
+		if !hit {
+			return
+		}
+	} else {
+		*s.nodes[k] = saved
+		s.emit(jLsEv{Op: "SaveFailed", Ups: []jUp{ju}, Res: res, At: at})
+	}
+	// the store object may be unusable after a failed write: the process ends and is started again.
+	// No power loss: what the dead process had written stays in the page cache and reaches the disk;
+	// the model of that is a sync of every file and directory before the store is opened again.
+	func() {
+		defer func() { recover() }()
+		s.db.Close()
+	}()
+	s.flushAll("/ls")
+	s.open()
+	ps := s.panels([]int{k})
+	s.emit(jLsEv{Op: "Reopen", Panels: ps})
+	for _, p := range ps {
+		n := s.nodes[p.N]
+		if p.RsErr != "" {
+			*n = lsNode{Shard: n.Shard, Replica: n.Replica, lastTerm: n.lastTerm, terms: map[uint64]uint64{}}
+			continue
+		}
+		n.term, n.vote, n.commit = p.St[0], p.St[1], p.St[2]
+		n.hasState = true
+		n.ss = p.Ss
+		if p.Count > 0 {
+			n.last = p.First + p.Count - 1
+		} else {
+			n.last = p.Asked
+		}
+		if n.commit > n.last {
+			n.commit = n.last
+		}
+		if n.floor > n.last {
+			n.floor = n.last
+		}
+		if n.rm > n.last {
+			n.rm = n.last
+		}
+	}
+}
+
 func (s *lsSim) run(steps int) {
 	s.emit(jLsEv{Op: "Init", Flavour: s.flavour})
 	s.open()
@@ -487,6 +623,8 @@ func (s *lsSim) run(steps int) {
 			s.forceCnt = 0
 		case c < 55:
 			s.save(0)
+		case c >= 96 && s.crashMode && (s.flavour == "tan" || s.flavour == "tanmux" || s.tid%2 == 0):
+			s.saveFsError()
 		case c < 62 && s.crashMode:
 			// count the file-system operations of a save on a dry run is not possible without
 			// repeating it; instead crash in front of a random operation among the first 40
